@@ -12,7 +12,7 @@ RULE = ("real shards built with ShardBuilder.Add/Write: 1-3 repositories (simple
         "boundary, invalid UTF-8, NUL bytes, preset skip reasons, 0-27 symbols, shuffled / overlapping / past-the-end symbol "
         "ranges) + crafted single-document shards with exactly k distinct trigrams around btreeBucketSize/2 and btreeBucketSize; "
         "b-tree cases: newBtree with bucketSize in {2,4,6,8,10}, v in {2,3,4}, 0-400 ascending keys (inner splits), every probe "
-        "value; codec cases: arbitrary (unsorted) uint32/uint16 lists through to/fromSizedDeltas(16) and marshalDocSections. "
+        "value; sequences: 3-9 documents through ONE reused DocChecker and ONE index.Builder with TrigramMax 5-18 / SizeMax 80-199 (many-trigram, long repetitive, empty, tiny, binary, too large, allow-listed); codec cases: arbitrary (unsorted) uint32/uint16 lists through to/fromSizedDeltas(16) and marshalDocSections. "
         "non-trivial = shard with >= 2 documents or > 3000 bytes, b-tree with more keys than one bucket, codec list >= 2")
 
 TRUSTED = ["correspondence harness harness/overlay/index/zz_verif_c09_test.go (generator, canonicalisation, Go oracle via Search(Const true, Whole)/List)",
